@@ -131,6 +131,7 @@ var sites = []siteSpec{
 	{"pkg/v3/runner/runner.go", "NewRunner"},
 	{"pkg/v3/plugin/plugin.go", "newPlugin"},
 	{"pkg/v3/plugin/delegate.go", "NewDelegate"},
+	{"tools/simulator/simulate/hydrator.go", "HydrateConfig"},
 	{"pkg/v3/runner/runner.go", "Runner.wrapWorkerFunc"},
 	{"pkg/v2/encode.go", "encode"},
 	{"tools/simulator/simulate/ocr/report.go", "ReportTracker.run"},
